@@ -150,6 +150,10 @@ def gen_seq(rng, n, combos):
     for _ in range(n):
         r = rng.random()
         live = set(sim)
+        if live and not combos and rng.random() < 0.05:
+            # (not in sequences with multi-operation requests: UpdateTag(query + mark add) in ONE request leaves
+            #  matches that differ from the saved definition; such requests cannot be built outside the package)
+            calls.append({"op": "restart", "name": ""})
         if r < 0.30 or not live:
             nm = pick_name(rng, live, 0.1)
             d = gen_def(rng, sim, nm)
@@ -426,8 +430,8 @@ def effect_ok(c, prev, cur, settle):
     """The change a successful call must have made (None = fine, else text)."""
     nm = c["name"]
     want = {k: dict(v) for k, v in prev.items()}
-    if c["op"] in ("breakstate", "fixstate"):
-        pass
+    if c["op"] in ("breakstate", "fixstate", "restart"):
+        pass        # (restart: Close + New on the same directories must bring back the same table)
     elif c["op"] == "add":
         if nm in prev:
             return "the tag existed before"
@@ -505,7 +509,9 @@ def model_text(seq, impl, orig=False):
         if p is not None:
             out.append("P %s %d %d %d %d %d %s %s %s" % (hx(d), p["err"], (p["mf"] | p["sf"]) & 0x80 != 0, (p["mf"] | p["sf"]) & 0x20 != 0,
                                                        p["grouping"], p["idsok"], lst(p["main"], hx), lst(p["sub"], hx), lst(p["ids"])))
-        if c["op"] == "add":
+        if c["op"] == "restart":
+            out.append("N")
+        elif c["op"] == "add":
             out.append("A %s %s %s" % (hx(c["name"]), hx(c["color"]), hx(c["def"])))
         elif c["op"] == "del":
             out.append("D %s" % hx(c["name"]))
